@@ -61,7 +61,7 @@ BOUNDS = {
                  'angles': [0, 30, 45, 90, 135, 180, -45, 200, 1e-06, 180.000001],
                  'surface': 'as quick',
                  'geometric deviations (spacing pattern 8, shift 1, file 1)': 'k <= 1 plus file x (shift, spacing), at angles '
-                                                                             '0, 30, 135 (other angles: base only)',
+                                                                             '0 and 30 (other angles: base only)',
                  'configuration deviations': 'k <= 2',
                  'big': '10x12x14 geometric spacing: 3 angles x 3 atmospheres x {flat, stair, slope} x file'}}
 TECHNIQUE = ('bounded exhaustive enumeration of rectangular geometries x configurations through the real '
@@ -78,7 +78,7 @@ LEVEL_NOTE = ('Spacings come from three patterns and their single-direction devi
 BASE_DX, BASE_DY, BASE_DZ = 10.0, 7.0, 2.0
 SHIFTS = [(0.0, 0.0, 0.0), (100.0, 200.0, -50.0)]
 ANGLES = {'quick': [0, 30, 135, -45], 'thorough': [0, 30, 45, 90, 135, 180, -45, 200, 1e-06, 180.000001]}
-DEV_ANGLES = {'quick': [0, 30], 'thorough': [0, 30, 135]}
+DEV_ANGLES = {'quick': [0, 30], 'thorough': [0, 30]}
 SP_DEVS = [['i', 'i', 'i'], ['t', 't', 't'], ['i', 'u', 'u'], ['u', 'i', 'u'], ['u', 'u', 'i'],
            ['t', 'u', 'u'], ['u', 't', 'u'], ['u', 'u', 't']]
 BND_KINDS = [[a, v, c] for a in ('top3', 'bot3', 'side1', 'side2') for v in ('zero', 'huge') for c in ('n', 'c')]
@@ -462,7 +462,10 @@ def tolerances(m, dxy, dz, rel):
     t['sp'] = lambda s: 2.5 * rel * s + 1e-12
     t['sp_missing'] = lambda s: 5.0 * rel * s + 1e-12
     t['pos'] = 1.5 * dxy
-    L1 = m.X[-1] - 0.5 * (m.dx[0] + m.dx[-1])
+    # the orientation can only be read off a line of block centres along direction 1 or 2: the shorter of
+    # the two available baselines bounds what the rounding of the centres may do to the angle
+    base = [b for b in (m.X[-1] - 0.5 * (m.dx[0] + m.dx[-1]), m.Y[-1] - 0.5 * (m.dy[0] + m.dy[-1])) if b > 0]
+    L1 = min(base) if base else 0.0
     if L1 > 6.0 * dxy:
         t['ang_rad'] = 1.5 * math.atan2(2.9 * dxy, L1 - 2.9 * dxy)
     else:
@@ -620,6 +623,8 @@ def classify(case, failure, memo=None):
             if fails_same(cand):
                 cur = normalise(cand)
     labels = [shape_class(case)]
+    if not all(fails_same(with_(cur, atm=a)) for a in (0, 1, 2) if a != cur['atm']):
+        labels.append('atm=%d' % cur['atm'])
     for name, _, lab in REVERT:
         if lab(cur) is None:
             continue
